@@ -156,6 +156,14 @@ func Observe(label string, v interface{}) {
 
 func MapOrder(on bool) {}
 
+// Tier is 0 for the quick tier and 1 for the thorough tier (VERIF_TIER natively).
+func Tier() int {
+	if os.Getenv("VERIF_TIER") == "thorough" {
+		return 1
+	}
+	return 0
+}
+
 // Symbolic reports whether the harness runs under the symbolic executor.
 func Symbolic() bool { return false }
 
